@@ -125,10 +125,12 @@ func (m *MessageStore) ProcessMessageQueueForDevicePK(ctx context.Context, devic
 			m.logger.Error("unable to process message, unmarshal of device pk failed", logutil.PrivateBinary("devicepk", devicePK))
 		} else if device.hasKnownChainKey = m.secretStore.IsChainKeyKnownForDevice(ctx, m.groupPublicKey, devicePublicKey); !device.hasKnownChainKey {
 			m.logger.Error("unable to process message, no secret found for device pk", logutil.PrivateBinary("devicepk", devicePK))
-		} else if next := device.queue.Next(); next != nil {
-			// let's try processing one message from the queue.
-			// if it succeeds, the whole queue should be added for processing.
-			m.messagesQueue.Add(next)
+		} else {
+			// hand the whole device queue back for processing: the message with the
+			// lowest counter may be one that can never be opened (sealed before the
+			// announced counter, or forged), and waiting for it to succeed would
+			// leave every decryptable message behind it parked
+			m.processDeviceMessagesInQueue(device)
 		}
 	}
 	m.muDeviceCaches.Unlock()
